@@ -182,6 +182,18 @@ func (d *Decoder) decodeNALUs(pkt *rtp.Packet) ([][]byte, error) {
 				errSize, h265.MaxAccessUnitSize)
 		}
 
+		// fragments belong to the access unit that is being buffered:
+		// they are subject to the same maximum size, together.
+		if (d.frameBufferSize + d.fragmentsSize) > h265.MaxAccessUnitSize {
+			errSize := d.frameBufferSize + d.fragmentsSize
+			d.resetFragments()
+			d.frameBuffer = nil
+			d.frameBufferLen = 0
+			d.frameBufferSize = 0
+			return nil, fmt.Errorf("access unit size (%d) is too big, maximum is %d",
+				errSize, h265.MaxAccessUnitSize)
+		}
+
 		d.fragments = append(d.fragments, pkt.Payload[3:])
 		d.fragmentNextSeqNum++
 
